@@ -1184,6 +1184,8 @@ func runC09(w *World) *Result {
 	c09PrefixApplied(w, r, "R-C09-prefix")
 	c07Public(w, cf, r, "R-C09-public")
 	c07Predicate(w, r, "R-C09-public")
+	r.Rule("R-C09-once", "a file reached along several import paths is added to the program once (set of included files shared by reference with the import parsers, consulted and updated under the file's identity)", 1)
+	c09Once(w, r, "R-C09-once")
 	r.Rule("R-C09-keys", "tables of the parsing context that are filled under namespace-prefixed keys are looked up under keys built the same way", 2)
 	c09Keys(w, cf, r, "R-C09-keys")
 	r.Rule("R-C09-state", "what is emitted for one program does not depend on an earlier Transpile call on the same object (function definitions are never skipped because of remembered names)", 1)
@@ -1593,20 +1595,46 @@ func c09FilterFlag(w *World, r *Result, rule string) {
 				// the appended value is the element the loop ranges over
 				isElem := false
 				for _, e := range variadicElems(ap.Call.Args[1]) {
-					if u, ok := e.(*ssa.UnOp); ok {
-						if ia, ok := u.X.(*ssa.IndexAddr); ok {
-							if ph, ok := ia.Index.(*ssa.BinOp); ok {
+					// the element itself, or a field of it (a carrier struct around the statement)
+					var fromElem func(v ssa.Value, d int) bool
+					fromElem = func(v ssa.Value, d int) bool {
+						if d > 6 {
+							return false
+						}
+						switch x := v.(type) {
+						case *ssa.UnOp:
+							return fromElem(x.X, d+1)
+						case *ssa.Field:
+							return fromElem(x.X, d+1)
+						case *ssa.FieldAddr:
+							return fromElem(x.X, d+1)
+						case *ssa.MakeInterface:
+							return fromElem(x.X, d+1)
+						case *ssa.Alloc:
+							// the element copied into a local (for _, el := range list { el.field … })
+							for _, ref := range *x.Referrers() {
+								if st, ok := ref.(*ssa.Store); ok && st.Addr == x && fromElem(st.Val, d+1) {
+									return true
+								}
+							}
+						case *ssa.IndexAddr:
+							if ph, ok := x.Index.(*ssa.BinOp); ok {
 								if p, ok := ph.X.(*ssa.Phi); ok && strings.TrimSpace(p.Comment) == "rangeindex" && p.Block() == hdr {
-									isElem = true
+									return true
 								}
 							}
 						}
+						return false
+					}
+					if fromElem(e, 0) {
+						isElem = true
 					}
 				}
 				if !isElem {
 					continue
 				}
 				// the flag guarding the append: a plain bool value tested by the dominating branch
+				var flags []ssa.Value
 				var flag ssa.Value
 				for d := b; d != nil && d != hdr; d = d.Idom() {
 					p := d.Idom()
@@ -1625,7 +1653,7 @@ func c09FilterFlag(w *World, r *Result, rule string) {
 					}
 					if (p.Succs[0].Dominates(b) && len(p.Succs[0].Preds) == 1) || (p.Succs[1].Dominates(b) && len(p.Succs[1].Preds) == 1) {
 						flag = c
-						break
+						flags = append(flags, c) // every flag of a conjunction (if !a && b) guards the append
 					}
 				}
 				if flag == nil {
@@ -1651,7 +1679,9 @@ func c09FilterFlag(w *World, r *Result, rule string) {
 						}
 					}
 				}
-				walk(flag, 0)
+				for _, f := range flags {
+					walk(f, 0)
+				}
 				if carried {
 					r.Bad(rule, key, w.Pos(ap.Pos()), "whether an element is kept depends on a flag carried over from the previous iteration (it is not reset per element): after the first dropped duplicate, the following statements of imported files are dropped as well")
 				} else {
@@ -3261,4 +3291,138 @@ func errorPaths(b *ssa.BasicBlock, seen map[*ssa.BasicBlock]bool, depth int) (bo
 		all = all && a
 	}
 	return some, all
+}
+
+// c09Once: a file reached along several import paths (or under several aliases) is part of
+// the program once.  Structural necessary conditions, in the function that creates the
+// parser of an imported file: (shared) a map field of the importing parser is handed to the
+// created parser by reference, so that nested imports see the same set; (tested) that set
+// is consulted under a key taken from the created parser / the imported path and the answer
+// is used; (recorded) the key is entered into the set.  Without them the statements of a
+// file imported by two files are emitted twice: its top-level code runs twice and its
+// private globals are re-initialised between the importers.
+func c09Once(w *World, r *Result, rule string) {
+	n := 0
+	for _, fn := range w.Funcs("parser") {
+		if len(fn.Params) == 0 {
+			continue
+		}
+		recvPtr, ok := fn.Params[0].Type().Underlying().(*types.Pointer)
+		if !ok {
+			continue
+		}
+		for _, b := range fn.Blocks {
+			for _, ins := range b.Instrs {
+				mk, ok := ins.(*ssa.Call)
+				if !ok {
+					continue
+				}
+				callee := mk.Call.StaticCallee()
+				if callee == nil || pkgOf(callee) != w.Pkgs["parser"].Types || callee.Signature.Recv() != nil || callee.Signature.Results().Len() != 1 {
+					continue
+				}
+				var anchor ssa.Value
+				resT := callee.Signature.Results().At(0).Type()
+				switch {
+				case types.Identical(resT, fn.Params[0].Type()):
+					anchor = mk
+				case types.Identical(resT, recvPtr.Elem()):
+					for _, ref := range *mk.Referrers() {
+						if st, ok := ref.(*ssa.Store); ok && st.Val == mk {
+							anchor = st.Addr
+						}
+					}
+				}
+				if anchor == nil {
+					continue
+				}
+				n++
+				pos := w.Pos(mk.Pos())
+				key := "once:" + FuncName(fn)
+				// (shared) anchor.F = p.F for a map field F
+				shared := map[int]bool{}
+				for _, b2 := range fn.Blocks {
+					for _, i2 := range b2.Instrs {
+						st, ok := i2.(*ssa.Store)
+						if !ok {
+							continue
+						}
+						fa, ok := st.Addr.(*ssa.FieldAddr)
+						if !ok || fa.X != anchor {
+							continue
+						}
+						if _, isMap := st.Val.Type().Underlying().(*types.Map); !isMap {
+							continue
+						}
+						if u, ok := st.Val.(*ssa.UnOp); ok {
+							if f2, ok := u.X.(*ssa.FieldAddr); ok && f2.X == ssa.Value(fn.Params[0]) && f2.Field == fa.Field {
+								shared[fa.Field] = true
+							}
+						}
+					}
+				}
+				// keys taken from the created parser or from a path
+				fromImport := func(k ssa.Value) bool {
+					src := newSrcSet()
+					backward(k, src, map[ssa.Value]bool{})
+					seen := map[ssa.Value]bool{}
+					var dep func(v ssa.Value, d int) bool
+					dep = func(v ssa.Value, d int) bool {
+						if v == nil || d > 6 || seen[v] {
+							return false
+						}
+						seen[v] = true
+						if v == anchor {
+							return true
+						}
+						var ops []*ssa.Value
+						if i3, ok := v.(ssa.Instruction); ok {
+							ops = i3.Operands(ops)
+							for _, o := range ops {
+								if *o != nil && dep(*o, d+1) {
+									return true
+								}
+							}
+						}
+						return false
+					}
+					return dep(k, 0) || len(src.calls["path/filepath.Join"]) > 0 || len(src.calls["path/filepath.Abs"]) > 0
+				}
+				tested, recorded := false, false
+				for _, b2 := range fn.Blocks {
+					for _, i2 := range b2.Instrs {
+						switch x := i2.(type) {
+						case *ssa.Lookup:
+							if u, ok := x.X.(*ssa.UnOp); ok {
+								if fa, ok := u.X.(*ssa.FieldAddr); ok && fa.X == ssa.Value(fn.Params[0]) && shared[fa.Field] && fromImport(x.Index) {
+									if x.Referrers() != nil && len(*x.Referrers()) > 0 {
+										tested = true
+									}
+								}
+							}
+						case *ssa.MapUpdate:
+							if u, ok := x.Map.(*ssa.UnOp); ok {
+								if fa, ok := u.X.(*ssa.FieldAddr); ok && fa.X == ssa.Value(fn.Params[0]) && shared[fa.Field] && fromImport(x.Key) {
+									recorded = true
+								}
+							}
+						}
+					}
+				}
+				switch {
+				case len(shared) == 0:
+					r.Bad(rule, key, pos, "no set of already included files is shared with the parser of the imported file: a file imported by two files (or under two aliases) is added to the program twice — its top-level statements run twice and its private globals are re-initialised between the importers")
+				case !tested:
+					r.Bad(rule, key, pos, "the shared set of included files is never consulted for the imported file: its statements are added on every import")
+				case !recorded:
+					r.Bad(rule, key, pos, "the imported file is never entered into the shared set of included files: a later import adds its statements again")
+				default:
+					r.Ok(rule, key, pos, "a set shared by reference with the import parsers is consulted and updated under the imported file's identity before its statements are added")
+				}
+			}
+		}
+	}
+	if n == 0 {
+		r.Bad(rule, "once:none", "-", "no place found where a parser for an imported file is created")
+	}
 }
